@@ -46,7 +46,8 @@ theorem reach_trans {L : LPlan} {a b c : Nat} (h1 : Cache.Reach L a b) (h2 : Cac
 
 /-- `pr j = some d`: the unregistered call `j` rewrites the dependent source `d`.  The producer is PRIVATE (its only
     dependent is `d`: then it runs exactly when `d` has to be refreshed), every source has at most one producer, a source
-    that is out of date has one, and every registered node upstream of `d` is upstream of the producer too (DESIGN 7.7:
+    that is out of date has one (reaching it directly or through ordering tokens), and every registered node upstream of `d`
+    is upstream of the producer too (DESIGN 7.7:
     otherwise `d` could be rewritten before something it depends on, and be out of date again at once). -/
 structure SetupP (P : Input) (pr : Nat → Option Nat) (w0 : World) (F : Option Int) (c0 : Int) : Prop where
   wf : P.WF
@@ -56,12 +57,46 @@ structure SetupP (P : Input) (pr : Nat → Option Nat) (w0 : World) (F : Option 
   below : w0.below c0
   fresh : ∀ f, F = some f → f ≤ c0
   prodOk : ∀ j d, pr j = some d → P.regOf j = none ∧ P.lits.contains j = false ∧ P.regOf d = some true ∧
-    (⟨j, d, .dep⟩ : LEdge) ∈ P.edges ∧ ∀ e ∈ P.edges, e.src = j → e.dst = d
+    Cache.Reach P.toLPlan j d ∧ j ∈ P.nodes
+  /-- the nodes PRIVATE to a dependent source `d`: its producer and the ordering tokens (plain literals) between the two;
+      whatever depends on one of them is another of them or `d` itself, and none of them is the requested output -/
+  ownEx : ∃ ow : Nat → Option Nat, (∀ j d, pr j = some d → ow j = some d) ∧
+    ∀ u d, ow u = some d → P.regOf u = none ∧ P.out ≠ some u ∧ ∀ e ∈ P.edges, e.src = u → e.dst = d ∨ ow e.dst = some d
   prodInj : ∀ j j' d, pr j = some d → pr j' = some d → j = j'
   srcStale : ∀ d, P.regOf d = some true → P.isStale d = true → ∃ j, pr j = some d
   depsUp : ∀ j d, pr j = some d → ∀ q sq, P.regOf q = some sq → Cache.Reach P.toLPlan q d → q ≠ d →
     Cache.Reach P.toLPlan q j
-  prodNotOut : ∀ j d, pr j = some d → P.out ≠ some j
+
+/-- whatever a private node of `d` reaches is private to `d` too, or is `d` or downstream of it -/
+theorem reach_own {P : Input} {ow : Nat → Option Nat} {d : Nat}
+    (hown : ∀ u, ow u = some d → ∀ e ∈ P.edges, e.src = u → e.dst = d ∨ ow e.dst = some d)
+    {j u : Nat} (hj : ow j = some d) (hr : Cache.Reach P.toLPlan j u) : ow u = some d ∨ Cache.Reach P.toLPlan d u := by
+  induction hr with
+  | refl => exact Or.inl hj
+  | @step p u _ hp ih =>
+    rcases ih with h1 | h1
+    · obtain ⟨e, he, hs, hd⟩ := mem_logicalPreds.mp hp
+      rcases hown p h1 e he hs with h2 | h2
+      · right; rw [← hd, h2]; exact Cache.Reach.refl d
+      · left; rw [← hd]; exact h2
+    · exact Or.inr (Cache.Reach.step h1 hp)
+
+/-- From a producer to the Barrier of its out-of-date source there is a path in the plan before pruning (directly, or
+    through the ordering tokens). -/
+theorem producer_path {P : Input} {pr : Nat → Option Nat} {w0 : World} {F : Option Int} {c0 : Int}
+    (S : SetupP P pr w0 F c0) {j d : Nat} (hp : pr j = some d) (hst : P.isStale d = true) :
+    Path (physBuild P).edges (.orig j) (P.W d) := by
+  obtain ⟨hj, _, hd, hreach, _⟩ := S.prodOk j d hp
+  obtain ⟨ow, how1, how2⟩ := S.ownEx
+  have hall : ∀ q, Cache.Reach P.toLPlan j q → ∀ s, P.regOf q = some s → P.isStale q = true := by
+    intro q hq sq hsq
+    rcases reach_own (fun u hu => (how2 u d hu).2.2) (how1 j d hp) hq with h1 | h1
+    · rw [(how2 q d h1).1] at hsq; cases hsq
+    · rw [S.stale] at hst ⊢
+      exact Cache.stale_reach (toLPlan_wf S.wf) w0 F hst h1
+  rcases tail_chain hreach hall with rfl | hpath
+  · rw [hj] at hd; cases hd
+  · rwa [show P.tail j = .orig j by simp [Input.tail, hj], tail_of_reg hd] at hpath
 
 section order
 variable {P : Input} {pr : Nat → Option Nat} {w0 : World} {F : Option Int} {c0 : Int} (S : SetupP P pr w0 F c0)
@@ -86,11 +121,9 @@ theorem downstream_waits {j d u : Nat} (hp : pr j = some d) (hst : P.isStale d =
     (hr : Cache.Reach P.toLPlan d u) {a : PN}
     (ha : (a = .read u ∧ ∃ sr, P.regOf u = some sr) ∨ (a = .write u ∧ P.regOf u = some false) ∨ (a = .orig u ∧ d ≠ u))
     (hb : code a ∈ s.begun) : code (.orig j) ∈ s.okd := by
-  obtain ⟨hj, hjl, hd, hedge, _⟩ := S.prodOk j d hp
+  obtain ⟨hj, hjl, hd, _, _⟩ := S.prodOk j d hp
   have hall := stale_allP S h hst
-  have hjd : Path (physBuild P).edges (.orig j) (P.W d) := by
-    have := edge_to_tail hedge (fun s hs => by rw [hj] at hs; cases hs) (fun s _ => hst)
-    rwa [show P.tail j = .orig j by simp [Input.tail, hj], tail_of_reg hd] at this
+  have hjd : Path (physBuild P).edges (.orig j) (P.W d) := producer_path S hp hst
   have hfin : Path (physBuild P).edges (P.W d) a := by
     rcases ha with ⟨rfl, sr, hru⟩ | ⟨rfl, hru⟩ | ⟨rfl, hne⟩
     · have hsu := hall u hr sr hru
@@ -121,7 +154,8 @@ end order
 theorem producer_kept_stale {P : Input} {pr : Nat → Option Nat} {w0 : World} {F : Option Int} {c0 : Int}
     (S : SetupP P pr w0 F c0) {j d : Nat} (hp : pr j = some d) (hm : PN.orig j ∈ (physFinal P).nodes) :
     P.isStale d = true := by
-  obtain ⟨hj, hjl, hd, hedge, hpriv⟩ := S.prodOk j d hp
+  obtain ⟨hj, hjl, hd, _, _⟩ := S.prodOk j d hp
+  obtain ⟨ow, how1, how2⟩ := S.ownEx
   unfold physFinal prunePlan pruneLiterals at hm
   obtain ⟨_, hK⟩ := mem_pruneAnc_nodes.mp (foldLit_nodes_sub hm)
   obtain ⟨n, _, r, hrm, hpath⟩ := mem_anc.mp hK
@@ -138,47 +172,64 @@ theorem producer_kept_stale {P : Input} {pr : Nat → Option Nat} {w0 : World} {
       · next hno =>
         simp only [PN.orig.injEq] at ho2; subst ho2
         exact ⟨ho, by cases hh : P.regOf o <;> simp_all⟩
-  cases hpath with
-  | zero => exact absurd (root_not_orig j hrm).1 (S.prodNotOut j d hp)
-  | succ ha hrest =>
-    obtain ⟨e, he, hs, hq⟩ := ha
-    rcases mem_built_edges.mp he with ⟨le, hle, hre⟩ | ⟨r', hrm', hg⟩
-    · rcases rewire_cases hre with ⟨h0, rfl⟩ | ⟨s', _, _, rfl⟩ | ⟨s', _, _, _, rfl⟩
-      · -- the logical edge j -> d as it is: orig j -> orig d, and orig d leads nowhere
-        simp only [PN.orig.injEq] at hs
-        have hdst : le.dst = d := hpriv le hle hs
-        simp only at hq
-        rw [hdst] at hq
-        subst hq
-        exfalso
-        cases hrest with
-        | zero => have := (root_not_orig d hrm).2; rw [hd] at this; cases this
-        | succ ha2 _ =>
-          obtain ⟨e2, he2, hs2, _⟩ := ha2
-          exact no_out_of_kept_orig S.wf hd (Or.inl rfl) e2 he2 hs2
-      · cases hs
-      · exact absurd hs (W_not_orig P _ _)
-    · have hreg : P.regOf r'.1 = some r'.2 := regOf_of_mem S.wf (by cases r'; exact hrm')
-      rcases gadget_cases hg with h | ⟨hst, _, h | ⟨u, a, hu, hda, h⟩⟩ | ⟨hst, hsrc, h | h | h⟩
-      · subst h; cases hs
-      · subst h; cases hs
-      · -- the Barrier of an out-of-date source that depends on j: that source is d
-        subst h
-        simp only at hs
-        subst hs
-        rcases depSrc_cases hda with ⟨h1, h2⟩ | ⟨_, _, _, h2⟩
-        · simp only [PN.orig.injEq] at h2
-          subst h2
-          obtain ⟨le, hle, h1', h2'⟩ := mem_logicalPreds.mp hu
-          have := hpriv le hle h1'
-          rw [h2'] at this
-          rw [← this]; exact hst
-        · exact absurd h2.symm (W_not_orig P _ _)
-      · subst h; cases hs
-      · subst h
-        simp only [PN.orig.injEq] at hs
-        rw [hs, hj] at hreg; cases hreg
-      · subst h; cases hs
+  -- along any path from a node private to d to a required node / the output, d is out of date
+  have key : ∀ (n : Nat) (a : PN), PathN (physBuild P).edges n a r → (∃ u, a = .orig u ∧ ow u = some d) →
+      P.isStale d = true := by
+    intro n
+    induction n with
+    | zero =>
+      intro a hpn ⟨u, hau, hou⟩
+      cases hpn
+      subst hau
+      exact absurd (root_not_orig u hrm).1 (how2 u d hou).2.1
+    | succ n ih =>
+      intro a hpn ⟨u, hau, hou⟩
+      subst hau
+      obtain ⟨hureg, _, huout⟩ := how2 u d hou
+      cases hpn with
+      | succ ha hrest =>
+        obtain ⟨e, he, hs, hq⟩ := ha
+        rcases mem_built_edges.mp he with ⟨le, hle, hre⟩ | ⟨r', hrm', hg⟩
+        · rcases rewire_cases hre with ⟨h0, rfl⟩ | ⟨s', _, _, rfl⟩ | ⟨s', _, _, _, rfl⟩
+          · simp only [PN.orig.injEq] at hs
+            simp only at hq
+            rcases huout le hle hs with hdst | hdst
+            · -- the logical edge into d as it is: ... -> orig d, and orig d leads nowhere
+              rw [hdst] at hq
+              subst hq
+              exfalso
+              cases hrest with
+              | zero => have := (root_not_orig d hrm).2; rw [hd] at this; cases this
+              | succ ha2 _ =>
+                obtain ⟨e2, he2, hs2, _⟩ := ha2
+                exact no_out_of_kept_orig S.wf hd (Or.inl rfl) e2 he2 hs2
+            · subst hq
+              exact ih _ hrest ⟨le.dst, rfl, hdst⟩
+          · cases hs
+          · exact absurd hs (W_not_orig P _ _)
+        · have hreg : P.regOf r'.1 = some r'.2 := regOf_of_mem S.wf (by cases r'; exact hrm')
+          rcases gadget_cases hg with h | ⟨hst, _, h | ⟨u', a', hu', hda, h⟩⟩ | ⟨hst, hsrc, h | h | h⟩
+          · subst h; cases hs
+          · subst h; cases hs
+          · -- the Barrier of an out-of-date source that depends on a private node of d: that source is d
+            subst h
+            simp only at hs
+            subst hs
+            rcases depSrc_cases hda with ⟨h1, h2⟩ | ⟨_, _, _, h2⟩
+            · simp only [PN.orig.injEq] at h2
+              subst h2
+              obtain ⟨le, hle, h1', h2'⟩ := mem_logicalPreds.mp hu'
+              rcases huout le hle h1' with h3 | h3
+              · rw [h2'] at h3; rw [← h3]; exact hst
+              · rw [h2'] at h3
+                rw [(how2 r'.1 d h3).1] at hreg; cases hreg
+            · exact absurd h2.symm (W_not_orig P _ _)
+          · subst h; cases hs
+          · subst h
+            simp only [PN.orig.injEq] at hs
+            rw [hs, hureg] at hreg; cases hreg
+          · subst h; cases hs
+  exact key n _ hpath ⟨j, rfl, how1 j d hp⟩
 
 /-! ### the invariant -/
 
@@ -689,7 +740,7 @@ theorem xinvP_prod {j d : Nat} (hp : pr j = some d) (hb : code (.orig j) ∈ s.b
       ⟨x.w.set d (some (v, x.clock)), fun b => if b = PN.orig j then some v else x.slot b, x.clock + 1⟩ := by
   intro v
   have hL := toLPlan_wf S.wf
-  obtain ⟨hj, hjl, hd, hedge, hpriv⟩ := S.prodOk j d hp
+  obtain ⟨hj, hjl, hd, hreach, _⟩ := S.prodOk j d hp
   have hstd : P.isStale d = true := producer_kept_stale S hp (begun_builtP S h hb).1
   have hv : v = FS P.toLPlan x.w j := orig_valueP S h I hb (by rw [hj]; simp)
   have htch : ∀ k, Tch pr (s.okd ++ [code (.orig j)]) k ↔ Tch pr s.okd k ∨ k = d := by
@@ -704,9 +755,7 @@ theorem xinvP_prod {j d : Nat} (hp : pr j = some d) (hb : code (.orig j) ∈ s.b
     · rintro (h1 | h1)
       · exact Or.inl h1
       · exact Or.inr (Or.inr ⟨j, rfl, by rw [h1]; exact hp⟩)
-  have hjd : Path (physBuild P).edges (.orig j) (P.W d) := by
-    have := edge_to_tail hedge (fun s hs => by rw [hj] at hs; cases hs) (fun s _ => hstd)
-    rwa [show P.tail j = .orig j by simp [Input.tail, hj], tail_of_reg hd] at this
+  have hjd : Path (physBuild P).edges (.orig j) (P.W d) := producer_path S hp hstd
   have hdown : ∀ k, d ≠ k → Cache.Reach P.toLPlan d k → Tch pr s.okd k → False := by
     intro k hne hr hk
     exact no_touched_downstream S h I (a := .orig j) (by simpa [PN.isLit] using hjl) hn hstd hd (Or.inl hjd) hne hr hk
@@ -732,8 +781,8 @@ theorem xinvP_prod {j d : Nat} (hp : pr j = some d) (hb : code (.orig j) ∈ s.b
   have hnj : ¬ Cache.Reach P.toLPlan d j := by
     intro hr
     have h1 := Cache.Reach.le hL hr
-    have h2 := S.wf.topo _ hedge
-    simp only at h2
+    have h2 := Cache.Reach.le hL hreach
+    have h3 : j ≠ d := by intro hh; rw [hh, hd] at hj; cases hj
     omega
   refine { clockLe := f1, below := f2, good := f3, untouched := f4, touched := f5, order := f6,
            readOk := ?_, origOk := ?_, writtenOk := ?_, prodOk := ?_ }
@@ -850,26 +899,26 @@ theorem xinvP_reach {P : Input} {pr : Nat → Option Nat} {w0 : World} {F : Opti
 
 /-! ### a run that returns normally -/
 
+/-- a node with a path to a kept node is kept by the ancestor pruning -/
+theorem anc_closed_path {P : Input} (hP : P.WF) {a b : PN} (hab : Path (physBuild P).edges a b)
+    (hb : b ∈ anc (physBuild P).edges (fuelOf P) (required P ++ (physOut P).toList)) :
+    a ∈ anc (physBuild P).edges (fuelOf P) (required P ++ (physOut P).toList) := by
+  induction hab with
+  | single hadj => exact anc_closed code (built_rank hP) (fuel_ok P) hb hadj
+  | cons _ hadj ih => exact ih (anc_closed code (built_rank hP) (fuel_ok P) hb hadj)
+
 /-- The producer of an out-of-date source is part of the graph handed to the engine. -/
 theorem producer_kept {P : Input} {pr : Nat → Option Nat} {w0 : World} {F : Option Int} {c0 : Int}
     (S : SetupP P pr w0 F c0) {j d : Nat} (hp : pr j = some d) (hst : P.isStale d = true) :
     code (.orig j) ∈ (engineGraph P).nodes := by
-  obtain ⟨hj, hjl, hd, hedge, _⟩ := S.prodOk j d hp
+  obtain ⟨hj, hjl, hd, _, hjn⟩ := S.prodOk j d hp
   have hm : (d, true) ∈ P.reg := mem_of_regOf hd
   have hreq : P.W d ∈ required P ++ (physOut P).toList := by
     apply List.mem_append.mpr; left
     exact List.mem_map.mpr ⟨(d, true), List.mem_filter.mpr ⟨hm, hst⟩, rfl⟩
-  have hadj : Adj (physBuild P).edges (.orig j) (P.W d) := by
-    have hpred : j ∈ P.logicalPreds d := mem_logicalPreds.mpr ⟨_, hedge, rfl, rfl⟩
-    have hW : P.W d = .barrier d := by simp [Input.W, hd]
-    rw [hW]
-    refine ⟨⟨.orig j, .barrier d, .dep⟩, mem_built_edges.mpr (Or.inr ⟨(d, true), hm, ?_⟩), rfl, rfl⟩
-    simp only [Input.gadgetEdges, hst, if_true, List.mem_cons, List.mem_filterMap]
-    right; right
-    exact ⟨j, hpred, by simp [Input.depSrc, hj]⟩
   have hanc : PN.orig j ∈ anc (physBuild P).edges (fuelOf P) (required P ++ (physOut P).toList) :=
-    anc_closed code (built_rank S.wf) (fuel_ok P) (subset_anc hreq) hadj
-  have hb0 : PN.orig j ∈ (physBuild P).nodes := orig_mem (S.wf.edgeNodes _ hedge).1
+    anc_closed_path S.wf (producer_path S hp hst) (subset_anc hreq)
+  have hb0 : PN.orig j ∈ (physBuild P).nodes := orig_mem hjn
   have h1 : PN.orig j ∈ (pruneAnc (fuelOf P) (required P ++ (physOut P).toList) (physBuild P)).nodes :=
     mem_pruneAnc_nodes.mpr ⟨hb0, hanc⟩
   have h2 : PN.orig j ∈ (physFinal P).nodes := by
